@@ -1,6 +1,7 @@
 """Shared machinery of the read-side properties (C06, C07, C08, C10, C11, C12, C15, C18, C09):
 run byte strings through the real Mp4Reader (harness `run`, cmd read) and through the extracted reader model
 (driver `read`), normalise, compare; corpora of valid files and structure-aware mutations."""
+import itertools
 import json
 import os
 import random
@@ -32,12 +33,19 @@ def model_case(data, mode, declared=None, frag=None, extra=2, maxs=60, fail=None
     return " ".join(toks)
 
 
-def run_both(cases, profile, want_model=True, **opts):
-    """cases: list of dicts {data, [len], [frag], [frag_len], [fail] ...}; returns list of (impl, model) parsed"""
+ORDER_DEP = []   # (profile, case dict, [{"call", "first", "later"}]) collected by run_both: answers that changed when the same call was repeated
+
+
+def run_both(cases, profile, want_model=True, revisit=True, **opts):
+    """cases: list of dicts {data, [len], [frag], [frag_len], [fail] ...}; returns list of (impl, model) parsed.
+    revisit: the harness repeats every sample_offset / read_sample call on the same reader in reverse and in scrambled order and reports answers
+    that differ from the first ones (collected in ORDER_DEP; common.run_check turns them into violations of the property being checked)."""
     mode = "d" if profile == "debug" else "r"
     il, ml = [], []
     for c in cases:
         o = dict(opts)
+        if revisit and "calls" not in c:
+            o["revisit"] = True
         for k in ("len", "frag_len", "fail", "fail_kind", "chunk", "intr", "calls", "json", "base"):
             if k in c:
                 o[k] = c[k]
@@ -53,6 +61,9 @@ def run_both(cases, profile, want_model=True, **opts):
             ia = json.loads(a)
         except Exception:
             ia = {"dead": a}
+        for sub in (ia, ia.get("frag") if isinstance(ia.get("frag"), dict) else None):
+            if sub and sub.get("order_dep"):
+                ORDER_DEP.append((profile, cases[len(out)], sub["order_dep"]))
         if b is None:
             mb = None
         else:
@@ -241,8 +252,51 @@ def valid_files(rng, n):
             extra = [isogen.emsg(0, 1000, 5, 6, 7, b"urn:scheme", b"val", b"\x01\x02\x03")]
         elif i % 4 == 2:
             extra = [isogen.emsg(1, 90000, 1 << 33, 6, 7, b"u", b"", b""), isogen.Box("free", [isogen.Raw(b"1234")])]
-        r, tracks, nodes = isogen.build_movie(trs, layout, udta=udta, extra_top=extra)
+        moov_extra = []
+        if i % 5 == 3:
+            # metadata at the track level (trak.meta) and at the movie level (moov.meta), both forms; an edit list before mdia
+            trs[0]["trak_extra"] = [isogen.meta([isogen.ilst([isogen.ilst_item(isogen.TITLE, 1, b"Track title")])], fullbox=(i % 2 == 1))]
+            trs[-1]["trak_before_mdia"] = [isogen.edts([(10, 0, 1, 0)], version=i % 2)]
+            moov_extra = [isogen.meta([isogen.ilst([isogen.ilst_item(isogen.YEAR, 21, b"\x00\x00\x07\xd8")])], fullbox=True)]
+        elif i % 5 == 4:
+            trs[0]["trak_extra"] = [isogen.meta([isogen.Box("xml ", [isogen.Raw(b"<t/>")])], fullbox=True, handler="mdta")]
+        r, tracks, nodes = isogen.build_movie(trs, layout, udta=udta, extra_top=extra, moov_extra=moov_extra)
         out.append(("gen%d" % i, r, tracks))
+    return out
+
+
+def valid_fragmented(rng, n):
+    """generated fragmented movies: (name, init segment, media segment rendered for the single stream, media segment rendered for offset 0,
+    field map of the moof boxes relative to the media segment).  1-2 tracks, 1-3 movie fragments, tracks repeated inside a movie fragment,
+    track fragments without trun / without tfdt, all three base modes."""
+    out = []
+    bases = ["moof", "explicit", "explicit_end"]
+    for i in range(n):
+        ntr = rng.choice([1, 2])
+        tracks = [{"id": j + 1, "kind": rng.choice(["avc", "aac", "hevc"]), "ts": rng.choice([1000, 48000])} for j in range(ntr)]
+        clock = {t["id"]: rng.choice([0, 5, 1 << 33]) for t in tracks}
+        cnt = {t["id"]: 1 for t in tracks}
+        frags = []
+        for f in range(rng.randint(1, 3)):
+            chosen = rng.sample(tracks, rng.randint(1, ntr))
+            while rng.random() < 0.4 and len(chosen) < 4:
+                chosen.insert(rng.randint(0, len(chosen)), rng.choice(chosen))
+            fr = []
+            for t in chosen:
+                k = rng.choice([0, 1, 2, 3])
+                per = rng.random() < 0.5
+                tf = {"track_id": t["id"], "base": rng.choice(bases), "tfhd_dur": rng.choice([None, 20]), "tfdt": clock[t["id"]] if rng.random() < 0.9 else None,
+                      "tfdt_v": 1 if clock[t["id"]] >= (1 << 32) else rng.choice([0, 1]), "durations": [rng.choice([0, 1, 33]) for _ in range(k)] if per else None,
+                      "sizes": [rng.choice([0, 1, 2, 9]) for _ in range(k)], "cts": [rng.choice([0, 7, -7]) for _ in range(k)] if rng.random() < 0.5 else None,
+                      "with_offset": rng.random() < 0.9, "trun": rng.random() < 0.9, "k0": cnt[t["id"]], "moof_flag": rng.random() < 0.3}
+                clock[t["id"]] += sum(tf["durations"]) if per else k * (tf["tfhd_dur"] or 10)
+                cnt[t["id"]] += k
+                fr.append(tf)
+            frags.append(fr)
+        init, fin = isogen.build_fragmented(tracks, frags, trex_dur=rng.choice([0, 10]), large_moof=(i % 5 == 4))
+        m1, _, fields = fin(len(init), want_fields=True)
+        m0, _ = fin(0)
+        out.append(("fgen%d" % i, init, m1, m0, fields))
     return out
 
 
@@ -257,6 +311,22 @@ def trun_bombs(init):
             seg = bytes(isogen.render([moof, isogen.Box("mdat", [isogen.Raw(b"abcd")])]).data)
             out.append(("trun_bomb_%03x_%x" % (flags, count), {"data": init, "frag": seg}))
             out.append(("trun_bomb1_%03x_%x" % (flags, count), {"data": init + seg}))
+    return out
+
+
+def frag_default_bombs(init):
+    """track runs WITHOUT per-sample fields whose sample_count is huge, under every combination of tfhd defaults (duration / size / flags /
+    explicit base): a lookup deep into such a run must not walk the run sample by sample.  As one stream and as media segment."""
+    out = []
+    for dd, ds, df, base in itertools.product((None, 10), (None, 5), (None, 0), (None, 40)):
+        for tflags in (0x0, 0x1, 0x5):
+            for count in (1 << 16, 1 << 31, (1 << 32) - 1):
+                items = [isogen.F(4, count)] + ([isogen.F(4, 8)] if tflags & 1 else []) + ([isogen.F(4, 0)] if tflags & 4 else [])
+                moof = isogen.Box("moof", [isogen.mfhd(1), isogen.Box("traf", [isogen.tfhd(1, base, None, dd, ds, df), isogen.tfdt(0), isogen.full("trun", 0, tflags, items)])])
+                seg = bytes(isogen.render([moof, isogen.Box("mdat", [isogen.Raw(b"abcdefgh" * 4)])]).data)
+                lab = "fragdef_%s%s%s%s_%x_%x" % ("d" if dd else "-", "s" if ds else "-", "f" if df is not None else "-", "b" if base else "-", tflags, count)
+                out.append((lab, {"data": init, "frag": seg}))
+                out.append((lab + "_1", {"data": init + seg}))
     return out
 
 
